@@ -167,22 +167,14 @@ def trace_validation(ctx, vh, base, nruns, nops):
     for need in ("incref/ok", "incref/cycle", "remove/ok", "rename/ok", "sort/ok", "sort/dangling"):
         if not kinds.get(need):
             raise ToolError(f"trace validation: recorded runs never show {need} (vacuity guard)")
-    # canary: one corrupted recorded field must make TLC stop exactly there
-    bad = json.loads(json.dumps(events[:400]))
-    at = next(i for i in range(150, len(bad)) if any(bad[i].get("anc", {}).get(p) for p in bad[i].get("anc", {})))
-    p0 = next(p for p in bad[at]["anc"] if bad[at]["anc"][p])
-    bad[at]["anc"][p0] = bad[at]["anc"][p0][1:]
-    _, k, _ = validate_trace(bad, os.path.join(tdir, "canary.ndjson"), "c21tc")
-    if k != at:
-        raise ToolError(f"trace canary: corrupted event {at + 1} but TLC matched {k} events")
-    ctx.set("trace_canary_rejected_at_event", at + 1)
-    rounds = 0
-    while events and rounds < 8:
+    rounds, accepted = 0, False
+    while events and rounds < 12:
         rounds += 1
         r, k, inv = validate_trace(events, os.path.join(tdir, "trace.ndjson"), "c21tv")
         if rounds == 1:
             ctx.tlc_stats(r, "TraceGraph (recorded executions of the real ModuleGraph validated against ModuleGraphRef)")
         if k == len(events) and inv is None:
+            accepted = True
             break
         # event k+1 is not a behaviour of the specification: report it, drop its run, validate the rest
         ev = events[k] if k < len(events) else events[-1]
@@ -202,6 +194,18 @@ def trace_validation(ctx, vh, base, nruns, nops):
     ctx.set("trace_event_kinds", kinds)
     ctx.set("trace_runs_rejected", rejected)
     ctx.sample({"mode": "recorded-trace", "ops": [[o["op"], o["a"], o["b"]] for o in runs[0]["ops"][:12]]})
+    # canary, on events the specification has just accepted: one corrupted recorded field must make TLC stop exactly there
+    if not accepted or len(events) < 200:
+        ctx.set("trace_canary_rejected_at_event", "not run: fewer than 200 accepted events")
+        return
+    bad = json.loads(json.dumps(events[:400]))
+    at = next(i for i in range(min(150, len(bad) // 2), len(bad)) if any(bad[i].get("anc", {}).get(p) for p in bad[i].get("anc", {})))
+    p0 = next(p for p in bad[at]["anc"] if bad[at]["anc"][p])
+    bad[at]["anc"][p0] = bad[at]["anc"][p0][1:]
+    _, k, _ = validate_trace(bad, os.path.join(tdir, "canary.ndjson"), "c21tc")
+    if k != at:
+        raise ToolError(f"trace canary: corrupted event {at + 1} but TLC matched {k} events")
+    ctx.set("trace_canary_rejected_at_event", at + 1)
 
 
 def handle(ctx, res, recs, mode):
